@@ -232,28 +232,42 @@ Section Faithful.
     - reflexivity.
   Qed.
 
+  Lemma if_pairs_skipped : forall e brs, mif_pairs repaired mex (Some e) brs = Some ([], Some e).
+  Proof. intros e. induction brs as [|[g b] brs IH]; [reflexivity|]. cbn [mif_pairs]. exact IH. Qed.
+
   Lemma if_pairs_faithful : forall brs els,
-      decode (mif_pairs mex (brs ++ match els with Some b => [(true, b)] | None => [] end)) = sif sex brs els.
+      decode (mif_pairs repaired mex None (brs ++ match els with Some b => [(GBool true, b)] | None => [] end))
+      = sif sex brs els.
   Proof.
-    induction brs as [|[g b] brs IH]; intros els; simpl.
-    - destruct els; simpl; [apply block_faithful|reflexivity].
-    - destruct g; [apply block_faithful|apply IH].
+    induction brs as [|[g b] brs IH]; intros els.
+    - destruct els; cbn [app mif_pairs sif]; [|reflexivity].
+      cbn [mguard mpre]. rewrite decode_mpre, spre_nil. apply block_faithful.
+    - cbn [app mif_pairs sif]. simpl v_if_guard_error_overwritten.
+      destruct g as [[|]|n [| |k]]; cbn [mguard sguard].
+      + rewrite decode_mpre. f_equal. apply block_faithful.
+      + rewrite decode_mpre. f_equal. apply IH.
+      + rewrite decode_mpre. f_equal. apply block_faithful.
+      + rewrite decode_mpre. f_equal. apply IH.
+      + rewrite if_pairs_skipped. destruct k; reflexivity.
   Qed.
 
-  Lemma if_faithful : forall brs els, decode (mif mex brs els) = sif sex brs els.
+  Lemma if_faithful : forall brs els, decode (mif repaired mex brs els) = sif sex brs els.
   Proof. intros; apply if_pairs_faithful. Qed.
 
-  Lemma cond_faithful : forall n body,
-      decode (mcond repaired mex n body) = sforeach (fun _ : unit => sblock sex body) (repeat tt n).
+  Lemma cond_faithful : forall n fail body,
+      decode (mcond repaired mex n fail body) = scond (sblock sex body) fail n.
   Proof.
-    intros n body. unfold mcond. simpl v_cond_loop_keeps_break. cbv iota.
-    induction n as [|n IH]; simpl; [reflexivity|].
-    set (rest := sforeach (fun _ : unit => sblock sex body) (repeat tt n)) in *.
+    intros n fail body. unfold mcond. simpl v_cond_loop_keeps_break. cbv iota.
     rewrite <- block_faithful.
-    destruct (mblock mex body) as [[t [e|]]|]; simpl; [|rewrite mclear_mpre, decode_mpre, IH; reflexivity|reflexivity].
-    destruct e as [[]|k|v]; simpl; try reflexivity.
-    rewrite mclear_mpre, decode_mpre, IH; reflexivity.
+    induction n as [|n IH]; cbn [mcond_loop scond].
+    - destruct fail as [[m [t|]]|]; reflexivity.
+    - destruct (mblock mex body) as [[t [e|]]|]; simpl; [|rewrite mclear_mpre, decode_mpre, IH; reflexivity|reflexivity].
+      destruct e as [[]|k|v]; simpl; try reflexivity.
+      rewrite mclear_mpre, decode_mpre, IH; reflexivity.
   Qed.
+
+  Lemma src_faithful : forall n k, decode (msrc n k) = Some ([EvMark n], Raised (ety_of k)).
+  Proof. intros n [t|]; reflexivity. Qed.
 
   Section Iter.
     Context {A : Type}.
@@ -392,6 +406,7 @@ Proof.
   destruct s; cbn [mexec sexec]; try reflexivity.
   - apply if_faithful; assumption.
   - apply cond_faithful; assumption.
+  - apply src_faithful.
   - apply mrange_faithful. intros v. rewrite decode_mpre, (block_faithful _ _ IH). reflexivity.
   - apply list_loop_faithful; [|lia]. intros v. rewrite decode_mpre, (block_faithful _ _ IH). reflexivity.
   - cbv zeta. rewrite go_sorted_keys_spec. apply list_loop_faithful; [|apply Nat.lt_succ_diag_r].
@@ -500,7 +515,21 @@ Qed.
 
 (* loops *)
 Definition is_loop (s : stmt) : bool :=
-  match s with LoopCond _ _ | LoopRange _ _ _ _ | LoopList _ _ | LoopMap _ _ => true | _ => false end.
+  match s with
+  | LoopCond _ _ _ | LoopSrc _ _ _ | LoopRange _ _ _ _ | LoopList _ _ | LoopMap _ _ => true
+  | _ => false
+  end.
+
+Lemma scond_absorbs : forall run fail n t c,
+    scond run fail n = Some (t, c) -> c <> Broke /\ c <> Continued.
+Proof.
+  induction n as [|n IH]; cbn [scond]; intros t c H.
+  - destruct fail as [[m k]|]; injection H as <- <-; split; discriminate.
+  - destruct run as [[t1 c1]|]; [|discriminate].
+    destruct c1; try (injection H as <- <-; split; discriminate);
+      (destruct (scond _ fail n) as [[t2 c2]|] eqn:E; [|discriminate]);
+      simpl in H; injection H as <- <-; eapply IH; reflexivity.
+Qed.
 
 Lemma sforeach_absorbs : forall A (run : A -> result) xs t c,
     sforeach run xs = Some (t, c) -> c <> Broke /\ c <> Continued.
@@ -534,7 +563,8 @@ Proof.
   pose proof (signals_as_errors_faithful fuel s) as F. rewrite H in F. simpl in F. symmetry in F.
   assert (A : decode_err e <> Broke /\ decode_err e <> Continued).
   { destruct fuel as [|f]; [discriminate|]. destruct s; try discriminate; cbn [sexec] in F.
-    - eapply sforeach_absorbs; exact F.
+    - eapply scond_absorbs; exact F.
+    - injection F as <- <-. split; discriminate.
     - eapply srange_absorbs; exact F.
     - eapply sforeach_absorbs; exact F.
     - eapply sforeach_absorbs; exact F. }
@@ -544,26 +574,45 @@ Qed.
 (* ... `break` ends the loop it is written in, normally; `continue` goes on with the next round *)
 Theorem break_ends_loop : forall f body t,
     MB f body = Some (t, Some (RtErr TEndOfIteration)) ->
-    (forall n, mexec repaired (S f) (LoopCond (S n) body) = Some (t, None)) /\
+    (forall n fail, mexec repaired (S f) (LoopCond (S n) fail body) = Some (t, None)) /\
     (forall x xs, mexec repaired (S f) (LoopList (x :: xs) body) = Some (EvIter x :: t, None)).
 Proof.
   intros f body t H. split.
-  - intros n. cbn [mexec]. unfold mcond. simpl v_cond_loop_keeps_break. cbn [mcond_loop]. rewrite H. reflexivity.
+  - intros n fail. cbn [mexec]. unfold mcond. simpl v_cond_loop_keeps_break. cbn [mcond_loop]. rewrite H. reflexivity.
   - intros x xs. cbn [mexec]. unfold mhandle_iterator. cbn [miter list_next clear_type]. rewrite H. reflexivity.
 Qed.
 
 Theorem continue_next_round : forall f body t,
     MB f body = Some (t, Some (RtErr TContinueIteration)) ->
-    (forall n, mexec repaired (S f) (LoopCond (S n) body) = mpre t (mexec repaired (S f) (LoopCond n body))) /\
+    (forall n fail, mexec repaired (S f) (LoopCond (S n) fail body)
+                    = mpre t (mexec repaired (S f) (LoopCond n fail body))) /\
     (forall x xs, mexec repaired (S f) (LoopList (x :: xs) body)
                   = mpre (EvIter x :: t) (mexec repaired (S f) (LoopList xs body))).
 Proof.
   intros f body t H. split.
-  - intros n. cbn [mexec]. unfold mcond. simpl v_cond_loop_keeps_break. cbn [mcond_loop]. rewrite H.
+  - intros n fail. cbn [mexec]. unfold mcond. simpl v_cond_loop_keeps_break. cbn [mcond_loop]. rewrite H.
     cbn [clear_type]. rewrite mclear_mpre. reflexivity.
   - intros x xs. cbn [mexec]. unfold mhandle_iterator. cbn [length miter list_next clear_type]. rewrite H.
     cbn [mpre clear_type]. rewrite mclear_mpre.
     destruct (mclear TEndOfIteration _) as [[t' e']|]; reflexivity.
+Qed.
+
+(* a guard that raises completes the if statement with that error at once: only the guard's
+   own evaluation is logged — no later guard is evaluated, no branch and no else runs;
+   a guard that is false hands over to the remaining clauses *)
+Theorem failing_guard_ends_if : forall f n k b brs els,
+    mexec repaired (S f) (If ((GEval n (GFail k), b) :: brs) els)
+    = Some ([EvMark n], Some (errval_of k)).
+Proof.
+  intros f n k b brs els. cbn [mexec]. unfold mif. cbn [app mif_pairs mguard].
+  simpl v_if_guard_error_overwritten. rewrite if_pairs_skipped. reflexivity.
+Qed.
+
+Theorem false_guard_next_clause : forall f g t b brs els,
+    mguard g = (t, false, None) ->
+    mexec repaired (S f) (If ((g, b) :: brs) els) = mpre t (mexec repaired (S f) (If brs els)).
+Proof.
+  intros f g t b brs els H. cbn [mexec]. unfold mif. cbn [app mif_pairs]. rewrite H. reflexivity.
 Qed.
 
 (* return leaves the innermost function: the call completes normally with the value, and no
